@@ -158,7 +158,102 @@ fn check_one_at(base: &str, s: &Subject, suffix: &str, ty: &str, src: &str, l: &
     }
 }
 
+/// Request-type options next to removeparam (sweep "type options"): (spelling, canonical type).
+const TYPE_OPTS: [(&str, &str); 15] = [
+    ("document", "document"), ("doc", "document"), ("subdocument", "subdocument"), ("frame", "subdocument"),
+    ("xhr", "xmlhttprequest"), ("xmlhttprequest", "xmlhttprequest"), ("image", "image"), ("script", "script"),
+    ("css", "stylesheet"), ("stylesheet", "stylesheet"), ("ping", "ping"), ("other", "other"), ("font", "font"),
+    ("media", "media"), ("object", "object"),
+];
+/// Request type strings and the canonical type each denotes.
+const TYPE_REQS: [(&str, &str); 16] = [
+    ("script", "script"), ("image", "image"), ("document", "document"), ("subdocument", "subdocument"),
+    ("xmlhttprequest", "xmlhttprequest"), ("stylesheet", "stylesheet"), ("other", "other"), ("main_frame", "document"),
+    ("sub_frame", "subdocument"), ("font", "font"), ("media", "media"), ("object", "object"), ("ping", "ping"),
+    ("beacon", "ping"), ("xhr", "xmlhttprequest"), ("imageset", "image"),
+];
+
+/// Every list of request-type options of the sweep: (option text, positive canonical types,
+/// negated canonical types).
+fn type_option_lists() -> Vec<(String, Vec<&'static str>, Vec<&'static str>)> {
+    let mut v: Vec<(String, Vec<&'static str>, Vec<&'static str>)> = vec![(String::new(), vec![], vec![])];
+    for (sp, c) in TYPE_OPTS {
+        v.push((sp.to_string(), vec![c], vec![]));
+        if c != "document" {
+            v.push((format!("~{}", sp), vec![], vec![c]));
+        }
+    }
+    let base = ["document", "subdocument", "xhr", "image", "script"];
+    let canon = |n: &str| TYPE_OPTS.iter().find(|(s, _)| *s == n).unwrap().1;
+    for a in base {
+        for b in base {
+            if a == b {
+                continue;
+            }
+            v.push((format!("{},{}", a, b), vec![canon(a), canon(b)], vec![]));
+            if b != "document" {
+                v.push((format!("{},~{}", a, b), vec![canon(a)], vec![canon(b)]));
+                v.push((format!("~{},{}", b, a), vec![canon(a)], vec![canon(b)]));
+            }
+            if a != "document" && b != "document" {
+                v.push((format!("~{},~{}", a, b), vec![], vec![canon(a), canon(b)]));
+            }
+        }
+    }
+    v
+}
+
+/// A removeparam rule with a list of request-type options applies to exactly the listed types; with
+/// negated types only (or none) to the removeparam defaults document / subdocument / xhr minus the
+/// negated ones. Written from the option semantics; the real matcher is not consulted.
+fn check_type_options(idx: u64, l: &mut Local) {
+    let lists = type_option_lists();
+    let (opts, pos, neg) = &lists[(idx / 4) as usize % lists.len()];
+    let pattern = if idx & 1 == 0 { "*" } else { "||x.com^" };
+    let rule = match (opts.is_empty(), idx & 2 == 0) {
+        (true, _) => format!("{}$removeparam=a", pattern),
+        (false, true) => format!("{}$removeparam=a,{}", pattern, opts),
+        (false, false) => format!("{}${},removeparam=a", pattern, opts),
+    };
+    let e = vh::net::engine(&[rule.as_str()], true, false);
+    l.states += 1;
+    let url = "https://x.com/p?a=1&c=2";
+    for (ty, c) in TYPE_REQS {
+        for src in SOURCES {
+            let req = match Request::new(url, src, ty) {
+                Ok(r) => r,
+                Err(_) => continue,
+            };
+            l.evaluations += 1;
+            l.transitions += 1;
+            l.compared += 1;
+            let applies = if pos.is_empty() { ["document", "subdocument", "xmlhttprequest"].contains(&c) && !neg.contains(&c) } else { pos.contains(&c) && !neg.contains(&c) };
+            let exp = if applies { Some("https://x.com/p?c=2".to_string()) } else { None };
+            let got = std::panic::catch_unwind(std::panic::AssertUnwindSafe(|| e.check_network_request(&req).rewritten_url));
+            match &got {
+                Ok(Some(_)) => {
+                    l.nontrivial += 1;
+                    l.hist("rewritten")
+                }
+                Ok(None) => l.hist("untouched"),
+                Err(_) => l.hist("panic"),
+            }
+            if got.as_ref().ok() != Some(&exp) {
+                l.mismatch(Mismatch {
+                    sig: format!("c14.type-options.{}", if applies { "missing-rewrite" } else { "rewrite-outside-the-listed-types" }),
+                    what: format!("rule {:?} request type {} source {}: expected {:?}, engine gave {:?}", rule, ty, src, exp, got.ok()),
+                    case: json!({"type_options_index": idx}),
+                    size: rule.len() as u64,
+                });
+            }
+        }
+    }
+}
+
 fn replay(case: &Value, l: &mut Local) {
+    if let Some(i) = case["type_options_index"].as_u64() {
+        return check_type_options(i, l);
+    }
     let texts: Vec<&'static str> = case["rules"]
         .as_array()
         .map(|a| a.iter().filter_map(|v| v.as_str()).filter_map(|t| POOL.iter().find(|p| **p == t).copied()).collect())
@@ -291,9 +386,13 @@ fn check(ctx: &Ctx) -> i32 {
             }
         });
     });
+    let nl = type_option_lists().len() as u64;
+    ctx.bound("type_option_lists", nl);
+    ctx.bound("type_option_request_types", json!(TYPE_REQS.iter().map(|t| t.0).collect::<Vec<_>>()));
+    ctx.par_range("type options", nl * 4, 8, |i, l| check_type_options(i, l));
     ctx.finish(
         "model_checking",
-        "URL = https://x.com/p + every string of length <= n over {?,#,&,=,a,b,é}; x every subset of <= 2 (quick) / <= 3 (thorough; sets of 2 and 3 on suffixes up to n-1) rules of the 11-rule pool (+ four fixed triples in the quick tier); a second sweep one symbol shallower over the alphabet extended with an upper-case key and the multi-character key `utm` (engines built once per worker thread) x 5 request types x 2 initiators; a third sweep two symbols shallower behind 6 other spellings of the base (scheme case, empty userinfo, default port, IDN label, dot segments: the caller's spelling must survive); non-trivial = the engine reported a rewritten URL; states = engines built, transitions = requests checked, every one compared byte for byte with the reference",
+        "URL = https://x.com/p + every string of length <= n over {?,#,&,=,a,b,é}; x every subset of <= 2 (quick) / <= 3 (thorough; sets of 2 and 3 on suffixes up to n-1) rules of the 11-rule pool (+ four fixed triples in the quick tier); a second sweep one symbol shallower over the alphabet extended with an upper-case key and the multi-character key `utm` (engines built once per worker thread) x 5 request types x 2 initiators; a third sweep two symbols shallower behind 6 other spellings of the base (scheme case, empty userinfo, default port, IDN label, dot segments: the caller's spelling must survive); a fourth sweep over every list of request-type options of a menu (15 spellings alone and negated, ordered pairs of 5 types positive / negated / mixed) before and after `removeparam=a` on 2 patterns x 16 request type strings x 2 initiators, expectation written from the option semantics; non-trivial = the engine reported a rewritten URL; states = engines built, transitions = requests checked, every one compared byte for byte with the reference",
         &["per-rule applicability is taken from the real public matcher (differential), the rewrite itself from the independent reference"],
     )
 }
